@@ -508,7 +508,7 @@ theorem raw_succeeds_all (fuel : Nat) :
         | str s => simp [wtFields] at hw
         | arr l => simp [wtFields] at hw
 
-/-- A well-typed document within the depth limit is read into a raw schema tree. -/
+/-- A well-typed document is read into a raw schema tree, given enough gas. -/
 theorem rawOfJson_succeeds {fuel : Nat} {j : Json} (hw : wellTyped j = true)
     (hd : parseDepth j ≤ fuel) : ∃ raw, rawOfJson fuel j = .ok raw :=
   (raw_succeeds_all fuel).1 j hw hd
